@@ -9,6 +9,7 @@
 #include <etl/numeric.hpp>
 #include <etl/span.hpp>
 #include <etl/string_view.hpp>
+#include <etl/strings.hpp>
 
 #define SIM_MAIN_TU 1
 #include "../sim/driver.hpp"
@@ -360,6 +361,28 @@ struct ViewDriver : DriverBase<ViewDriver> {
             std::string_view const ref(cbuf.p + msv[a].off, len);
             std::string_view const rn(needle, nl);
             SV const en(needle, nl);
+            // single-character overloads, positions around size()
+            {
+                char const c = needle[0];
+                size_t gc[6] = {};
+                bool okc     = call(3 + a, false, false, [&] {
+                    gc[0] = sv[a]->find(c, pos);
+                    gc[1] = sv[a]->rfind(c, pos);
+                    gc[2] = sv[a]->find_first_of(c, pos);
+                    gc[3] = sv[a]->find_last_of(c, pos);
+                    gc[4] = sv[a]->find_first_not_of(c, pos);
+                    gc[5] = sv[a]->find_last_not_of(c, pos);
+                });
+                if (okc) {
+                    size_t const wc[6] = {ref.find(c, pos), ref.rfind(c, pos), ref.find_first_of(c, pos), ref.find_last_of(c, pos), ref.find_first_not_of(c, pos), ref.find_last_not_of(c, pos)};
+                    for (int i = 0; i < 6; ++i) {
+                        if (gc[i] != wc[i]) {
+                            ctx.violation("C08", "diff:string_view-search-char", "string_view single-character search #" + std::to_string(i) + " differs from std::string_view"); // foreign
+                            break;
+                        }
+                    }
+                }
+            }
             size_t got[8] = {};
             bool ok       = call(3 + a, false, false, [&] {
                 got[0] = sv[a]->find(en, pos);
@@ -384,6 +407,51 @@ struct ViewDriver : DriverBase<ViewDriver> {
                     }
                 }
             }
+            return;
+        }
+        if (op == "sv_parse") {
+            // number parsing on a view into an exact-size, unterminated buffer: reading past the view is visible
+            std::string text;
+            for (uint64_t i = 0; i < st.k[0] % 3; ++i) {
+                text.push_back(' ');
+            }
+            if (st.k[1] % 3 == 0) {
+                text.push_back('-');
+            }
+            size_t const nd = static_cast<size_t>(st.k[1] / 3 % 13);
+            for (size_t i = 0; i < nd; ++i) {
+                text.push_back(static_cast<char>('0' + (static_cast<uint64_t>(st.v[i % 4]) + i * 7U + st.k[2]) % 10));
+            }
+            if (st.k[2] % 4 == 0) {
+                text.push_back(st.k[2] % 8 == 0 ? 'x' : '.');
+                text.push_back('5');
+            }
+            ExactBuf<char> buf(text.size());
+            for (size_t i = 0; i < text.size(); ++i) {
+                buf.p[i] = text[i];
+            }
+            ctx.log.kv("len", static_cast<long long>(text.size()));
+            long long gotValue = 0;
+            long gotEnd        = -1;
+            int gotErr         = 0;
+            double gotFloat    = 0;
+            bool ok            = call(-1, false, false, [&] {
+                auto const r = etl::strings::to_integer<int>(SV(buf.p, text.size()), 10);
+                gotValue     = r.value;
+                gotErr       = static_cast<int>(r.error);
+                gotEnd       = r.end == nullptr ? -1 : static_cast<long>(r.end - buf.p);
+                auto const f = etl::strings::to_floating_point<double>(SV(buf.p, text.size()));
+                gotFloat     = f.value;
+            });
+            (void)gotFloat;
+            if (ok && gotErr == 0) {
+                char* e            = nullptr;
+                long long const rv = std::strtoll(text.c_str(), &e, 10);
+                if (rv >= -2147483648LL && rv <= 2147483647LL && (gotValue != rv || gotEnd != e - text.c_str())) {
+                    ctx.violation("C10", "diff:to_integer", "to_integer value / consumed count differs from strtol"); // foreign
+                }
+            }
+            ctx.log.kv("err", gotErr);
             return;
         }
         // ------------------------------------------------------------------ stateless catalogue rows
@@ -525,7 +593,7 @@ struct ViewDriver : DriverBase<ViewDriver> {
     {
         static std::vector<OpDef> const o = {
             {"sp_reset", 3},  {"sp_first", 5},         {"sp_last", 5},           {"sp_subspan", 7}, {"sp_access", 6}, {"sp_static", 3}, {"sv_reset", 3},
-            {"sv_remove_prefix", 6}, {"sv_remove_suffix", 6}, {"sv_substr", 7}, {"sv_copy", 4},    {"sv_access", 6}, {"sv_search", 6}, {"bit8", 3},
+            {"sv_remove_prefix", 6}, {"sv_remove_suffix", 6}, {"sv_substr", 7}, {"sv_copy", 4},    {"sv_access", 6}, {"sv_search", 6}, {"sv_parse", 4}, {"bit8", 3},
             {"bit16", 2},     {"bit32", 3},            {"bit64", 3},             {"div_sat", 3},    {"chrono_day_month", 3}, {"layout_stride", 3},
             {"array_index", 3},
         };
